@@ -44,7 +44,7 @@ static Res exec(const Op &op, bool track) {
   else r.rc = op.via_file == 3 ? assemble_str(a, op.program.c_str()) : asm_assemble_str(a, op.program.c_str());
   if (track) in_assemble--;
   r.off = asm_get_offset(a);
-  if (r.rc == 0 && r.off >= op.start && r.off <= (int)ext.size()) { const uint8_t *p = (const uint8_t *)asm_get_code(a); uint64_t h = 1469598103934665603ULL; for (int i = 0; i < r.off; i++) { h ^= p[i]; h *= 1099511628211ULL; } r.hash = h; }
+  if (r.rc == 0 && r.off >= op.start && (op.internal || r.off <= (int)ext.size())) { const uint8_t *p = (const uint8_t *)asm_get_code(a); uint64_t h = 1469598103934665603ULL; for (int i = 0; i < r.off; i++) { h ^= p[i]; h *= 1099511628211ULL; } r.hash = h; }
   if (op.binfile && r.rc == 0) { // the code goes to this thread's own file and is read back: the file's bytes enter the result
     maybe_yield(op.yield_mask, 2); int rb = asm_create_bin_file(a, op.binpath.c_str()); uint64_t h = r.hash ^ 0x9e3779b97f4a7c15ULL ^ (uint64_t)rb;
     FILE *f = fopen(op.binpath.c_str(), "rb"); if (f) { int ch; long n = 0; while ((ch = fgetc(f)) != EOF) { h ^= (uint8_t)ch; h *= 1099511628211ULL; n++; } fclose(f); h ^= (uint64_t)n << 32; unlink(op.binpath.c_str()); } else h ^= 0xdead;
@@ -101,6 +101,8 @@ int main(int argc, char **argv) {
       // now and then a program long enough to make the library-managed buffer grow (and move) while other threads map and unmap theirs
       // (not in the ThreadSanitizer build: it does not follow mremap, so a buffer that moved into an address range another thread used
       // before is reported as a race on that stale shadow state)
+      // an offset far behind the code of a library-managed instance, such that the grown buffer is an exact number of pages long
+      if (!threads_first && !TSAN_BUILD && r.below(7) == 0) { op.internal = true; op.start = (3 + (int)r.below(6)) * 4096 - 20 - (r.below(3) == 0 ? (int)r.below(3) : 0); }
       if (!threads_first && !TSAN_BUILD && r.below(9) == 0) { op.internal = true; n = 1300 + (int)r.below(900); failing = false; op.start = 0; }
       for (int k = 0; k < n; k++) { if (failing && k == n / 2) op.program += P.bad[r.below(P.bad.size())] + "\n"; op.program += P.lines[r.below(P.lines.size())] + "\n"; }
       // lookups of every first letter: lines start with different mnemonics by construction of the pool
